@@ -752,6 +752,27 @@ def truncate_splice(rng, texts):
     return a[:i] + rng.choice(INDICATORS) + a[i:]
 
 
+def make_cycle(spec, rng):
+    """Turn a tree-shaped spec into a self-referential one: anchor a
+    collection node and put an alias to it at one of its own descendants.
+    Returns None if the spec has no collection with a descendant."""
+    cands = []
+    for p, s in paths(spec):
+        if s[0] in ('seq', 'map') and s[1]:
+            cands.append(p)
+    if not cands:
+        return None
+    p = rng.choice(cands)
+    sub = get_at(spec, p)
+    inner = [q for q, _ in paths(sub) if q]
+    if rng.random() < 0.8:
+        vals = [q for q in inner if q[-1][0] != 'k']
+        inner = vals or inner
+    q = rng.choice(inner)
+    sub2 = set_at(sub, q, ['alias', 'cyc'])
+    return set_at(spec, p, ['anchor', 'cyc', sub2])
+
+
 CYCLES = ['&a [*a]\n', '&a {k: *a}\n', '&a [1, [2, *a]]\n',
           'x: &a\n  y: *a\n', '&a\n- &b\n  - *a\n  - *b\n',
           '? &a [*a]\n: v\n', '&a {? *a : 1}\n', 'k: &a [&b {z: *a}, *b]\n']
